@@ -28,11 +28,18 @@ type c15Cfg struct {
 	Sig        config.SignatureValidationMode
 	Background bool
 	Source     string // crl_files | crl_urls | cdp
+	// LateCDP > 0: that long after the start instance 0 sees a handshake naming a distribution point it has not seen
+	// before (in fetch_background this starts a forced update between two ticks)
+	LateCDP time.Duration
 }
 
 func (c c15Cfg) String() string {
 	sm := map[config.SignatureValidationMode]string{config.SignatureValidationModeVerify: "verify", config.SignatureValidationModeVerifyLog: "verify_log", config.SignatureValidationModeNone: "none"}[c.Sig]
-	return fmt.Sprintf("instances=%d intervals=%v phases=%v download=%s script=%q sig=%s background=%v source=%s", c.N, c.Intervals, c.Phases, c.Dur, c.Script, sm, c.Background, c.Source)
+	late := ""
+	if c.LateCDP > 0 {
+		late = fmt.Sprintf(" new-cdp-at=+%s", c.LateCDP)
+	}
+	return fmt.Sprintf("instances=%d intervals=%v phases=%v download=%s script=%q sig=%s background=%v source=%s%s", c.N, c.Intervals, c.Phases, c.Dur, c.Script, sm, c.Background, c.Source, late)
 }
 
 type c15Obs struct {
@@ -147,7 +154,16 @@ func c15Run(cfg c15Cfg) (o c15Obs) {
 		publishAt := start.Add(maxI + maxI/2)
 		B := func(i int) time.Duration { return 2*cfg.Intervals[i] + cfg.Dur*time.Duration(cfg.N) + 5*time.Second }
 		checked := make([]bool, cfg.N)
+		const urlLate = "http://crl.test/late.crl"
+		lateDone := false
 		for vsched.Now().Before(start.Add(horizon)) {
+			if cfg.LateCDP > 0 && !lateDone && !vsched.Now().Before(start.Add(cfg.LateCDP)) {
+				lateDone = true
+				net.Routes[urlLate] = &world.Behaviour{Label: "late", Delay: cfg.Dur, Body: world.SimpleCRL(p.CA, 1, 811).DER()}
+				l := world.Leaf(p.CA, bi(812), []string{urlLate}, nil)
+				ws[0].Lookup(l, world.Chain(l, p.CA, p.Root))
+				vsched.Drain()
+			}
 			if !published && !vsched.Now().Before(publishAt) {
 				published = true
 				if cfg.Source == "crl_files" {
@@ -226,6 +242,16 @@ func c15Configs(tier string) []c15Cfg {
 					for _, d := range []time.Duration{0, 5 * time.Second} {
 						out = append(out, c15Cfg{N: 1, Intervals: []time.Duration{I}, Dur: d, Script: sc, Sig: sg, Background: bg, Source: src})
 					}
+				}
+			}
+		}
+	}
+	// a distribution point seen for the first time between two ticks (2 and 7 minutes after the second tick)
+	for _, src := range []string{"crl_urls", "cdp"} {
+		for _, bg := range []bool{false, true} {
+			for _, late := range []time.Duration{2*I + 2*time.Minute, 2*I + 7*time.Minute} {
+				for _, d := range []time.Duration{0, 5 * time.Second} {
+					out = append(out, c15Cfg{N: 1, Intervals: []time.Duration{I}, Dur: d, Script: "", Sig: config.SignatureValidationModeVerify, Background: bg, Source: src, LateCDP: late})
 				}
 			}
 		}
